@@ -78,7 +78,8 @@ func subsetOf(t *rapid.T, label string, pool []string, min int) []string {
 }
 
 func genACompress(t *rapid.T, name string) aCompress {
-	return aCompress{Name: name, Gzip: rapid.SampledFrom([]int{1, 6, 9}).Draw(t, "gzipLevel"), Br: rapid.SampledFrom([]int{1, 5, 11}).Draw(t, "brLevel")}
+	// 0: the optional level is not set (the library default applies)
+	return aCompress{Name: name, Gzip: rapid.SampledFrom([]int{0, 1, 6, 9}).Draw(t, "gzipLevel"), Br: rapid.SampledFrom([]int{0, 1, 5, 11}).Draw(t, "brLevel")}
 }
 
 func genAUpstream(t *rapid.T, name string) aUpstream {
@@ -375,7 +376,14 @@ var (
 func toPikeConfig(a aConfig, ports []int) *config.PikeConfig {
 	c := &config.PikeConfig{}
 	for _, x := range a.Compresses {
-		c.Compresses = append(c.Compresses, config.CompressConfig{Name: x.Name, Levels: map[string]uint{"gzip": uint(x.Gzip), "br": uint(x.Br)}})
+		levels := map[string]uint{}
+		if x.Gzip > 0 {
+			levels["gzip"] = uint(x.Gzip)
+		}
+		if x.Br > 0 {
+			levels["br"] = uint(x.Br)
+		}
+		c.Compresses = append(c.Compresses, config.CompressConfig{Name: x.Name, Levels: levels})
 	}
 	for _, n := range a.Caches {
 		c.Caches = append(c.Caches, config.CacheConfig{Name: n, Size: 1000, HitForPass: "5m"})
